@@ -12,7 +12,7 @@ N = {"quick": 120, "thorough": 2500}
 NV = {"quick": 4, "thorough": 5}
 RULE = ("enumerated part: every assignment of roles {absent,input,output}^2 to 4 (quick) / 5 (thorough) variables x assumptions mention "
         "{nothing, all inputs} per contract x operation in compose (keep in none / first output / first shared output / a non-output), "
-        "quotient (additional inputs none / one legal / one illegal), merge, rename (every source,target pair incl. a fresh name, first "
+        "quotient (additional inputs none / one legal / one illegal), merge, refines (must raise unless the interfaces are equal as sets), rename (every source,target pair incl. a fresh name, first "
         "contract only), over a stub theory whose primitives always succeed exactly, so a refusal can only come from the interface logic; "
         "plus ill-formed constructor arguments; generated part: the polyhedral cases of C01/C02/C08/C16; oracle = reference model of the "
         "prescribed interfaces and admissibility written from the property text; non-trivial = both contracts have an interface "
@@ -46,6 +46,8 @@ def enumerate_cases(tier):
                 yield dict(base, op="quotient", arg=addl)
             if am in ((0, 0), (1, 1)):
                 yield dict(base, op="merge", arg=None)
+            if am == (0, 0):
+                yield dict(base, op="refines", arg=None)
         if all(b == "-" for b in r2):
             for s in names + ["zz"]:
                 for t in names + ["q"]:
@@ -140,6 +142,16 @@ def _run_enum(case):
     elif op == "quotient":
         verdict = model.quotient_iface(d1["i"], d1["o"], d2["i"], d2["o"], case["arg"])
         status, res = env.call("quotient", c1.quotient, c2, [V(v) for v in case["arg"]])
+    elif op == "refines":
+        same = set(d1["i"]) == set(d2["i"]) and set(d1["o"]) == set(d2["o"])
+        status, res = env.call("refines", c1.refines, c2)
+        viol = None
+        if same and status != "ok":
+            viol = {"what": "refines over equal interfaces raised %r" % (res,), "sig": {"kind": "good-request-refused", "op": "refines", "error": type(res).__name__}, "detail": {}}
+        if not same and (status == "ok" or not isinstance(res, env.IncompatibleArgsError)):
+            viol = {"what": "refines across different interfaces (in %s/%s out %s/%s) did not raise IncompatibleArgsError" % (d1["i"], d2["i"], d1["o"], d2["o"]),
+                    "sig": {"kind": "bad-request-accepted", "op": "refines", "reason": "different-interfaces"}, "detail": {}}
+        return {"viol": viol, "nontrivial": True, "labels": labels + ["model:" + ("same" if same else "reject:different-interfaces")], "outcome": "judged"}
     elif op == "merge":
         verdict = model.merge_iface(d1["i"], d1["o"], d2["i"], d2["o"])
         status, res = env.call("merge", c1.merge, c2)
